@@ -8,9 +8,14 @@ package PKGNAME
 // be re-run against the natively compiled real code.
 
 import (
+	"bytes"
 	"fmt"
 	"reflect"
+	"runtime"
+	"strconv"
 	"strings"
+	"sync"
+	"time"
 )
 
 type vrtAssumeFailed struct{ what string }
@@ -18,6 +23,7 @@ type vrtAssumeFailed struct{ what string }
 type vrtRun struct {
 	vals     map[string]uint64
 	used     map[string]int
+	sched    *vrtSched
 	Observes []string `json:"observes"`
 	Reached  []string `json:"reached"`
 	Failed   []string `json:"failed"`
@@ -161,4 +167,131 @@ func vrtRender(v interface{}) string {
 		return "err"
 	}
 	return "?"
+}
+
+// ---------------------------------------------------------------------------
+// Threads and forced schedules. The engine records, for every scheduling
+// point it passed in instrumentable repo code, which thread passed it; the
+// replay build overlays instrumented copies of the repo files that call
+// vrtPoint() at the same places, and vrtPoint lets a goroutine continue only
+// when the script says it is its turn. A thread that does not come back to a
+// point within vrtBlockedAfter is taken to be blocked inside a real
+// primitive, exactly as it was in the engine's run.
+
+type vrtTimeout struct{ what string }
+
+type vrtSched struct {
+	mu        sync.Mutex
+	order     []int
+	turn      int
+	running   int
+	lastGrant time.Time
+	ids       map[int64]int
+	next      int
+	wg        sync.WaitGroup
+	desync    bool
+}
+
+const (
+	vrtBlockedAfter = 15 * time.Millisecond
+	vrtGiveUpAfter  = 3 * time.Second
+	vrtJoinTimeout  = 4 * time.Second
+)
+
+func vrtGoid() int64 {
+	var buf [64]byte
+	n := runtime.Stack(buf[:], false)
+	f := bytes.Fields(buf[:n])
+	id, _ := strconv.ParseInt(string(f[1]), 10, 64)
+	return id
+}
+
+func vrtNewSched(order []int) *vrtSched {
+	s := &vrtSched{order: order, running: -1, ids: map[int64]int{}, next: 1}
+	s.ids[vrtGoid()] = 0
+	return s
+}
+
+func vrtGo(f func()) {
+	s := vrtS.sched
+	s.mu.Lock()
+	id := s.next
+	s.next++
+	s.mu.Unlock()
+	s.wg.Add(1)
+	go func() {
+		s.mu.Lock()
+		s.ids[vrtGoid()] = id
+		s.mu.Unlock()
+		defer s.wg.Done()
+		defer func() {
+			s.mu.Lock()
+			if s.running == id {
+				s.running = -1
+			}
+			s.mu.Unlock()
+		}()
+		f()
+	}()
+}
+
+func vrtJoin() {
+	s := vrtS.sched
+	// the joining thread is blocked as far as the schedule is concerned
+	s.mu.Lock()
+	if id, ok := s.ids[vrtGoid()]; ok && s.running == id {
+		s.running = -1
+	}
+	s.mu.Unlock()
+	done := make(chan struct{})
+	go func() { s.wg.Wait(); close(done) }()
+	select {
+	case <-done:
+	case <-time.After(vrtJoinTimeout):
+		panic(vrtTimeout{"vrtJoin: threads still blocked"})
+	}
+}
+
+// vrtPoint is called by the instrumented repo code before every lock,
+// condition-variable, wait-group and atomic operation.
+func vrtPoint() {
+	r := vrtS
+	if r == nil || r.sched == nil {
+		return
+	}
+	s := r.sched
+	s.mu.Lock()
+	id, ok := s.ids[vrtGoid()]
+	if !ok || s.desync || len(s.order) == 0 {
+		s.mu.Unlock()
+		return
+	}
+	if s.running == id {
+		s.running = -1
+	}
+	start := time.Now()
+	for {
+		if s.turn >= len(s.order) || s.desync {
+			s.mu.Unlock()
+			return // script exhausted: free run
+		}
+		if s.running != -1 && time.Since(s.lastGrant) > vrtBlockedAfter {
+			s.running = -1 // the granted thread is blocked inside a primitive
+		}
+		if s.running == -1 && s.order[s.turn] == id {
+			s.turn++
+			s.running = id
+			s.lastGrant = time.Now()
+			s.mu.Unlock()
+			return
+		}
+		if time.Since(start) > vrtGiveUpAfter {
+			s.desync = true
+			s.mu.Unlock()
+			return
+		}
+		s.mu.Unlock()
+		time.Sleep(100 * time.Microsecond)
+		s.mu.Lock()
+	}
 }
